@@ -581,7 +581,38 @@ func (f fsAuthFlush) AuthRead(a *go9p.SrvFid, o uint64, d []byte) (int, error) {
 func (f fsAuthFlush) AuthWrite(a *go9p.SrvFid, o uint64, d []byte) (int, error) { return f.authWrite(a, o, d) }
 
 // Ops returns the value to hand to Srv.Start for the requested optional interfaces.
+// the same four shapes with the optional request hooks
+type fsHook struct{ *ScriptFS }
+type fsFlushHook struct{ fsFlush }
+type fsAuthHook struct{ fsAuth }
+type fsAuthFlushHook struct{ fsAuthFlush }
+
+func (f *ScriptFS) hookProcess(r *go9p.SrvReq) {
+	f.x.Probe("request-hook-called")
+	r.Process()
+}
+
+func (f fsHook) SrvReqProcess(r *go9p.SrvReq)          { f.hookProcess(r) }
+func (f fsHook) SrvReqRespond(r *go9p.SrvReq)          { r.PostProcess() }
+func (f fsFlushHook) SrvReqProcess(r *go9p.SrvReq)     { f.hookProcess(r) }
+func (f fsFlushHook) SrvReqRespond(r *go9p.SrvReq)     { r.PostProcess() }
+func (f fsAuthHook) SrvReqProcess(r *go9p.SrvReq)      { f.hookProcess(r) }
+func (f fsAuthHook) SrvReqRespond(r *go9p.SrvReq)      { r.PostProcess() }
+func (f fsAuthFlushHook) SrvReqProcess(r *go9p.SrvReq) { f.hookProcess(r) }
+func (f fsAuthFlushHook) SrvReqRespond(r *go9p.SrvReq) { r.PostProcess() }
+
 func (f *ScriptFS) OpsValue(auth, flush bool) interface{} {
+	if f.x.C.cfg("prochook") != 0 {
+		switch {
+		case auth && flush:
+			return fsAuthFlushHook{fsAuthFlush{f}}
+		case auth:
+			return fsAuthHook{fsAuth{f}}
+		case flush:
+			return fsFlushHook{fsFlush{f}}
+		}
+		return fsHook{f}
+	}
 	switch {
 	case auth && flush:
 		return fsAuthFlush{f}
